@@ -295,6 +295,84 @@ theorem splitSpec_congr (p q : Nat → Bool) (h : ∀ b, p b = q b) (s : Bytes) 
   have : p = q := funext h
   rw [this]
 
+/-! ### rebuilding a sentence from its tokens -/
+
+theorem LM.foldFull_flags {σ α : Type} (M : LM σ α) (st : σ) (ids : List Nat) :
+    (M.foldFull st ids).1.map (·.2) = ids.map (· == 0) := by
+  induction ids generalizing st with
+  | nil => rfl
+  | cons w ws ih => simp [LM.foldFull, ih]
+
+/-- a non-empty delimiter-free run followed by a delimiter is one token -/
+theorem splitSpec_token_append (p : Nat → Bool) (t : Bytes) (d : Nat) (r : Bytes)
+    (hne : t ≠ []) (ht : ∀ b ∈ t, p b = false) (hd : p d = true) :
+    splitSpec p (t ++ d :: r) = t :: splitSpec p r := by
+  cases t with
+  | nil => exact absurd rfl hne
+  | cons b t' =>
+    have hb : p b = false := ht b (by simp)
+    have ht' : ∀ c ∈ t', p c = false := fun c hc => ht c (by simp [hc])
+    rw [List.cons_append, splitSpec_cons_word p b _ hb]
+    have e1 : (t' ++ d :: r).takeWhile (fun c => !p c) = t' := by
+      clear hne ht hb
+      induction t' with
+      | nil => simp [hd]
+      | cons c cs ih =>
+        have hc : p c = false := ht' c (by simp)
+        rw [List.cons_append, List.takeWhile_cons]
+        simp only [hc, Bool.not_false, if_true]
+        rw [ih (fun x hx => ht' x (by simp [hx]))]
+    have e2 : (t' ++ d :: r).dropWhile (fun c => !p c) = d :: r := by
+      clear hne ht hb e1
+      induction t' with
+      | nil => simp [hd]
+      | cons c cs ih =>
+        have hc : p c = false := ht' c (by simp)
+        rw [List.cons_append, List.dropWhile_cons]
+        simp only [hc, Bool.not_false, if_true]
+        exact ih (fun x hx => ht' x (by simp [hx]))
+    rw [e1, e2, splitSpec_cons_delim p d r hd]
+
+theorem splitSpec_single (p : Nat → Bool) (t : Bytes) (hne : t ≠ []) (ht : ∀ b ∈ t, p b = false) :
+    splitSpec p t = [t] := by
+  cases t with
+  | nil => exact absurd rfl hne
+  | cons b t' =>
+    have hb : p b = false := ht b (by simp)
+    have ht' : ∀ c ∈ t', p c = false := fun c hc => ht c (by simp [hc])
+    rw [splitSpec_cons_word p b _ hb]
+    have e1 : t'.takeWhile (fun c => !p c) = t' := by
+      clear hne ht hb
+      induction t' with
+      | nil => rfl
+      | cons c cs ih =>
+        have hc : p c = false := ht' c (by simp)
+        rw [List.takeWhile_cons]
+        simp only [hc, Bool.not_false, if_true]
+        rw [ih (fun x hx => ht' x (by simp [hx]))]
+    have e2 : t'.dropWhile (fun c => !p c) = [] := by
+      clear hne ht hb e1
+      induction t' with
+      | nil => rfl
+      | cons c cs ih =>
+        have hc : p c = false := ht' c (by simp)
+        rw [List.dropWhile_cons]
+        simp only [hc, Bool.not_false, if_true]
+        exact ih (fun x hx => ht' x (by simp [hx]))
+    rw [e1, e2, splitSpec_nil]
+
+theorem splitSpec_join (p : Nat → Bool) (d : Nat) (hd : p d = true) (ts : List Bytes)
+    (h : ∀ t ∈ ts, t ≠ [] ∧ ∀ b ∈ t, p b = false) : splitSpec p (joinWith d ts) = ts := by
+  induction ts with
+  | nil => exact splitSpec_nil p
+  | cons t rest ih =>
+    cases rest with
+    | nil => exact splitSpec_single p t (h t (by simp)).1 (h t (by simp)).2
+    | cons u rest' =>
+      simp only [joinWith]
+      rw [splitSpec_token_append p t d _ (h t (by simp)).1 (h t (by simp)).2 hd]
+      rw [ih (fun x hx => h x (by simp [hx]))]
+
 /-! ### NUL truncation -/
 
 theorem truncNul_of_not_mem (s : Bytes) (h : 0 ∉ s) : truncNul s = s := by
@@ -305,7 +383,7 @@ theorem truncNul_of_not_mem (s : Bytes) (h : 0 ∉ s) : truncNul s = s := by
     have hb : b ≠ 0 := by intro hb; subst hb; simp at h
     have : 0 ∉ bs := by intro hm; exact h (List.mem_cons_of_mem _ hm)
     have ih' := ih this
-    simp [List.takeWhile_cons, hb, ih']
+    simp [hb, ih']
 
 theorem zero_not_mem_truncNul (s : Bytes) : 0 ∉ truncNul s := by
   unfold truncNul
@@ -313,9 +391,9 @@ theorem zero_not_mem_truncNul (s : Bytes) : 0 ∉ truncNul s := by
   | nil => simp
   | cons b bs ih =>
     by_cases hb : b = 0
-    · subst hb; simp [List.takeWhile_cons]
+    · subst hb; simp
     · have e : List.takeWhile (fun x => x != 0) (b :: bs) = b :: List.takeWhile (fun x => x != 0) bs := by
-        simp [List.takeWhile_cons, hb]
+        simp [hb]
       rw [e]
       intro hm
       simp only [List.mem_cons] at hm
